@@ -1,11 +1,41 @@
 """Shared pieces of the intersection correspondences (C02, C03, C04, C12)."""
+import hashlib
+from fractions import Fraction as F
 from . import core, gen, compare, admit, exact as E
 from .gen import tok
 
 
+MOVES = [(F(1), F(-2), F(3)), (F(-2), F(1), F(1, 2)), (F(0), F(0), F(-4)), (F(3, 2), F(0), F(0)), (F(-1), F(-1), F(-1)), (F(0), F(5), F(1, 4))]
+
+
+def move_plan(A, B):
+    """deterministic in the case: about one case in six has one operand arrive by a primed in-place move (built elsewhere,
+    queried, moved to its place) instead of being constructed in place — stale derived state after move() then shows up as a
+    wrong intersection / membership.  -> None | (operand index, translation)"""
+    h = int(hashlib.blake2b((tok(A) + '|' + tok(B)).encode(), digest_size=4).hexdigest(), 16)
+    if h % 6 != 0:
+        return None
+    which = (h // 6) % 2
+    if (A, B)[which][0] in ('N', 'V'):
+        which = 1 - which
+    if (A, B)[which][0] in ('N', 'V'):
+        return None
+    return which, MOVES[(h // 12) % len(MOVES)]
+
+
+def build_pair(impl, A, B):
+    mp = move_plan(A, B)
+    if mp is None:
+        return impl.build(A), impl.build(B)
+    which, t = mp
+    if which == 0:
+        return impl.build_via_move(A, t), impl.build(B)
+    return impl.build(A), impl.build_via_move(B, t)
+
+
 def observe(impl, A, B, method=False):
     try:
-        a, b = impl.build(A), impl.build(B)
+        a, b = build_pair(impl, A, B)
     except Exception as e:
         return ('ctor-exc', type(e).__name__, str(e)[:80])
     if method:
@@ -55,6 +85,8 @@ def judge(ctx, prop, A, B, cls, obs, mline, use_oracle=True, extra_key=''):
     ctx.count(key, nontrivial=(truth[0] != 'none'))
     ctx.dist['%s-%s -> %s' % (A[0], B[0], truth[0])] += 1
     ctx.dist['class ' + cls.split(':')[0]] += 1
+    if move_plan(A, B) is not None:
+        ctx.dist['one operand arrived by a primed in-place move'] += 1
     if orc is not None and not (m[0] != 'err' and compare.same_den(m, orc, 1e-9)):
         ok, why = admit.admitted([A, B], extra_points=[p for p in (compare.verts(orc) if orc[0] in 'GB' else [q for q in orc[1:] if isinstance(q, tuple)])])
         if ok:
